@@ -204,10 +204,20 @@ def make_env(fs, study, pool_hook):
     return ns
 
 
+# grid limits with many significant digits (a lossy text round trip of the journaled limits must be visible); shared with replay/c18_replay.py through the cfg
+X0, Y0, DX, DY, MUST = 1.2345678912, 0.98765432101, 0.7654321098, 0.3141592653, 1.5123456789
+
+
+def grid_axes(n1, n2):
+    xs = [float(v) for v in np.linspace(X0, float(n1) + DX, n1)]
+    ys = sorted(set([float(v) for v in np.linspace(Y0, float(n2) + DY, n2)] + [MUST]))
+    return xs, ys
+
+
 def scenario(grid, must_kind, n_fail_max):
     """returns list of per-path outcomes of (run 1 with symbolic progress) ; (run 2 restart)"""
     n1, n2 = grid
-    total = n1 * len(set(list(np.linspace(1.0, float(n2), n2)) + [1.5]))
+    total = n1 * len(grid_axes(n1, n2)[1])
     k = [z3.Int('k%d' % i) for i in range(total)]
     kh = z3.Int('k_header')
     fail = [z3.Bool('fail%d' % i) for i in range(total)]
@@ -257,8 +267,8 @@ def scenario(grid, must_kind, n_fail_max):
         ns = make_env(fs, study, pool_hook)
         MI = ns['MultiprocessingInput']
         mk = (lambda v: list(v)) if must_kind == 'list' else (lambda v: tuple(v))
-        inputs = (MI('x', 'X value', 1.0, float(n1), 'linear', mk([]), n1), MI('y', 'Y value', 1.0, float(n2), 'linear', mk([1.5]), n2))
-        total_cases = n1 * len(set(list(np.linspace(1.0, float(n2), n2)) + [1.5]))
+        inputs = (MI('x', 'X value', X0, float(n1) + DX, 'linear', mk([]), n1), MI('y', 'Y value', Y0, float(n2) + DY, 'linear', mk([MUST]), n2))
+        total_cases = n1 * len(grid_axes(n1, n2)[1])
         out = {'exc2': None, 'results': None, 'exec1': None, 'exec2': None, 'total': total_cases}
         try:
             ns['multiprocessing_run']('/study', 'demo', study, inputs, force_restart=False, verbose=False, max_procs=4, perform_memory_check=False)
@@ -299,7 +309,7 @@ def norm_result(r):
 
 def real_replay(md, grid, must_kind):
     """reconstruct the interrupted directory with the REAL function (complete run, then remove every effect the model says did not happen), restart with the real function"""
-    cfg = {'grid': list(grid), 'must_kind': must_kind, 'k': {k_[1:]: int(v) for k_, v in md.items() if k_.startswith('k') and k_[1:].isdigit()},
+    cfg = {'grid': list(grid), 'limits': [X0, Y0, DX, DY, MUST], 'must_kind': must_kind, 'k': {k_[1:]: int(v) for k_, v in md.items() if k_.startswith('k') and k_[1:].isdigit()},
            'fail': [int(k_[4:]) for k_, v in md.items() if k_.startswith('fail') and v is True], 'steps': {str(a): b for a, b in STEPS.items()}}
     with tempfile.TemporaryDirectory(prefix='verif_c18_') as td:
         env = dict(os.environ)
@@ -343,8 +353,7 @@ def job_restart(grid, must_kind, n_fail_max):
         for cn, idx, val in res:
             seen.setdefault(idx, []).append((cn, val))
         # exactly one result per grid index, value equal to the uninterrupted one (x*1000+y at that index)
-        ys = sorted(set([float(v) for v in np.linspace(1.0, float(grid[1]), grid[1])] + [1.5]))
-        xs = [float(v) for v in np.linspace(1.0, float(grid[0]), grid[0])]
+        xs, ys = grid_axes(grid[0], grid[1])
         want = {(i, j): xs[i] * 1000.0 + ys[j] for i in range(len(xs)) for j in range(len(ys))}
         if len(res) != total or set(seen) != set(want) or any(len(v) != 1 for v in seen.values()):
             bad['count'].append((pc, 'got %d results for %d cases: indices %s' % (len(res), total, sorted(seen))))
